@@ -8,6 +8,9 @@ ASSUMPTIONS = [
     "integer-valued monotone clock; 'now' of the documented predicate is any instant between the first and the last clock read of one process_share call",
     "share containers are in-memory (disk primitives of ShareFile/MutableShareFile replaced); cancel secrets of the leases of one share are pairwise distinct",
     "lease-age histogram (float bucket arithmetic) is replaced by a recorder",
+    "two_cycles_mutable runs on the fake file system of harness/_sharefix.py (real MutableShareFile lease-slot code); cycle_deletes_expired reuses the crawl "
+    "skeleton of harness/C27_h.py (3 prefixes, in-memory state files, jump-index clock, permuted directory listings); that every bucket is visited in every "
+    "cycle under interruptions, kills and restarts is C27",
 ]
 T = {"quick": 120, "thorough": 1500}
 _CASES = [{"policy": p, "enabled": e, "_label": "%s-%s" % (("age", "age_override", "cutoff")[p], "on" if e else "off")}
